@@ -21,6 +21,8 @@ pub mod jwk;
 pub mod jws;
 pub mod jwt;
 pub mod jwu;
+#[cfg(feature = "verif-hooks")]
+pub mod verif_hooks;
 
 #[cfg(test)]
 mod tests;
